@@ -991,10 +991,37 @@ func (r *CrashRun) runBackup() (v *Violation) {
 			v = viol("C20", "backup", "backup-run-panicked", "BackupManager.Run panicked: %v", rec)
 		}
 	}()
+	died := ""
+	if r.Stats["backup_runs"] == 0 {
+		// what the location looks like if the process dies during this hub's very first run, after the data has
+		// been written: it is this store's location from then on, whether or not the run came to its end
+		prev := hooks.onPoint
+		hooks.onPoint = func(owner any, name string, h int64) {
+			if name == "backup.afterData" && died == "" {
+				d := NewDir("backupdied")
+				if err := CopyDirSparse(r.backupDir, d); err == nil {
+					died = d
+				}
+			}
+			if prev != nil {
+				prev(owner, name, h)
+			}
+		}
+		defer func() { hooks.onPoint = prev }()
+	}
 	r.backupMgr.Run()
 	r.atBackup = start
 	r.Stats["backup_runs"]++
 	r.ev("backup")
+	if died != "" {
+		defer os.RemoveAll(died)
+		r.Stats["first_backup_runs_cut_short"]++
+		if fv := r.foreignBackupAt(died, false); fv != nil {
+			fv.Signature += ":after-first-run-died"
+			fv.Message = "this hub's first backup run died after it had written its data; " + fv.Message
+			return fv
+		}
+	}
 	return nil
 }
 
@@ -1057,6 +1084,10 @@ func (r *CrashRun) foreignBackup() (v *Violation) {
 	if r.backupDir == "" || r.atBackup == nil || r.locationForeign {
 		return nil
 	}
+	return r.foreignBackupAt(r.backupDir, r.curOp < len(r.Sc.Ops) && r.Sc.Ops[r.curOp].N == 1)
+}
+
+func (r *CrashRun) foreignBackupAt(location string, staleSource bool) (v *Violation) {
 	time.Sleep(time.Nanosecond)
 	other, err := OpenHub(NewDir("otherhub"), r.Sc.Knobs)
 	if err != nil {
@@ -1069,15 +1100,15 @@ func (r *CrashRun) foreignBackup() (v *Violation) {
 	if ds, err := other.Dsm.CreateDataset("foreign", nil); err == nil && ds != nil {
 		_ = ds.StoreEntities(other.Entities([]Ent{{"id": MkE + "foreign", "props": map[string]any{}, "refs": map[string]any{}}}))
 	}
-	other.Env.BackupLocation = r.backupDir
+	other.Env.BackupLocation = location
 	other.Env.BackupSchedule = "*/5 * * * *"
-	if r.curOp < len(r.Sc.Ops) && r.Sc.Ops[r.curOp].N == 1 {
+	if staleSource {
 		// stale settings of a hub that was moved to a new store: the rsync source directory still names the old
 		// store (it plays no part in a native backup, which always dumps the store that is open)
 		other.Env.BackupSourceLocation = r.H.Dir
 		r.Stats["foreign_backup_with_stale_source_location"]++
 	}
-	before := dirFingerprint(r.backupDir)
+	before := dirFingerprint(location)
 	bm, err := server.VerifNewBackupManager(other.Store, other.Env)
 	if err == nil && bm != nil {
 		func() {
@@ -1086,7 +1117,7 @@ func (r *CrashRun) foreignBackup() (v *Violation) {
 		}()
 	}
 	r.Stats["foreign_backup_attempts"]++
-	if after := dirFingerprint(r.backupDir); after != before {
+	if after := dirFingerprint(location); after != before {
 		return viol("C20", "backup", "foreign-store-overwrote-backup", "a store with a different storage id ran its backup against this location and changed it:\nbefore %s\nafter  %s", before, after)
 	}
 	return nil
